@@ -6,8 +6,11 @@ package tmmemstore
 // before them), so every interleaving of the methods' critical sections is explored. What each
 // call returned and what the store holds afterwards must be explained by one of the two
 // sequential orders of the calls (linearizability for two operations). A method that splits
-// its check and its write over two lock acquisitions is found this way; an access made without
-// any lock is not (no scheduling point: outside the claim).
+// its check and its write over two lock acquisitions is found this way. An access made without
+// any lock has no scheduling point; it is found by the engine's lockset check instead
+// (verifrt.LocksetRace: the two clients' accesses to one map object, one of them a write, must
+// hold a common lock - exclusively on the writer's side), confirmed natively by the same
+// stress loop built with the Go race detector.
 
 import (
 	"time"
@@ -34,12 +37,14 @@ func vhStress(f func()) { verifrt.Stress(300000, 20*time.Second, f) }
 // vhPar runs a and b concurrently under the nondeterministic scheduler.
 func vhPar(a, b func()) {
 	verifrt.SchedNondet(true, vhC16Preempt())
+	verifrt.LocksetRace(true)
 	start, da, db := make(chan struct{}), make(chan struct{}), make(chan struct{})
 	go func() { <-start; a(); close(da) }()
 	go func() { <-start; b(); close(db) }()
 	close(start)
 	<-da
 	<-db
+	verifrt.LocksetRace(false)
 	verifrt.SchedNondet(false, 0)
 }
 
